@@ -190,15 +190,24 @@ package pubsub
 //@ spec fn nHandle() int = calls(PubSubRouter.HandleRPC) - old(calls(PubSubRouter.HandleRPC))
 //@ spec fn nAccept() int = calls(PubSubRouter.AcceptFrom) - old(calls(PubSubRouter.AcceptFrom))
 //@ func (*PubSub).handleIncomingRPC
-//@   property C03 C09 C16 C12
+//@   property C03 C09 C16 C12 C05 C18
 //@   safe
 //@   requires wf: wfPubSub(p)
 //@   requires rpc: rpc != nil
-//@   requires decoded: forall i int :: 0 <= i && i < len(rpc.RPC.Publish) ==> rpc.RPC.Publish[i] != nil
+//@   requires decoded: (forall i int :: 0 <= i && i < len(rpc.RPC.Publish) ==> rpc.RPC.Publish[i] != nil) && (forall i int :: 0 <= i && i < len(rpc.RPC.Subscriptions) ==> rpc.RPC.Subscriptions[i] != nil)
+//@   requires topics: topicsRep(p)
 //@   noframe
 //@   loop 1 invariant wf: wfPubSub(p) && rpc != nil
 //@   loop 2 invariant wf: wfPubSub(p) && rpc != nil
 //@   loop 3 invariant wf: wfPubSub(p) && rpc != nil
+//@   loop 1 assume filtered-subscriptions-wellformed: forall i int :: 0 <= i && i < len(subs) ==> subs[i] != nil
+//@   loop 1 invariant topics-rep: topicsRep(p)
+//@   loop 1 step subscription-recorded: forall t string :: t == ctlTopic(subs[rangeindex].Topicid) ==>
+//@        has(p.topics, t, rpc.from) == (subs[rangeindex].Subscribe != nil && deref(subs[rangeindex].Subscribe))
+//@   loop 1 step others-untouched: forall t string, q string :: t != ctlTopic(subs[rangeindex].Topicid) || q != rpc.from ==> has(p.topics, t, q) == iter(has(p.topics, t, q))
+//@   loop 1 step join-notified-on-change: forall t string :: t == ctlTopic(subs[rangeindex].Topicid) ==>
+//@        calls((*Topic).sendNotification) - iter(calls((*Topic).sendNotification)) == ite(has(p.topics, t, rpc.from) && !iter(has(p.topics, t, rpc.from)) && t in p.myTopics, 1, 0) &&
+//@        calls((*PubSub).notifyLeave) - iter(calls((*PubSub).notifyLeave)) == ite(!has(p.topics, t, rpc.from) && iter(has(p.topics, t, rpc.from)), 1, 0)
 //@   loop 1 invariant quiet: nPush() == 0 && nShould() == 0 && nHandle() == 0 && nAccept() == 0
 //@   loop 2 invariant vetting: nPush() == 0 && nHandle() == 0 && nAccept() == 1 && lastret(PubSubRouter.AcceptFrom) == AcceptAll &&
 //@        (forall i int :: 0 <= i && i < len(toPush) ==> vetted[toPush[i]] && toPush[i] != nil && allocated(toPush[i]) && toPush[i].Message != nil)
